@@ -39,8 +39,12 @@ Print Assumptions c15_roundtrip_without_uniform_flags_refuted.
    then the value is written unrounded (finding F12).
    A column is named after the READABLE level name rl = level_to_name(level) (blob_to_df builds the
    column names from it), so the statement needs the readable names of the hierarchy to be pairwise
-   distinct: TaxonomyTree accepts a hierarchy_mapper that sends two levels to one name, and then the
-   later level overwrites the columns of the earlier (c15_csv_duplicate_readable_level_refuted, F31).
+   distinct.  Every TaxonomyTree satisfies that SINCE /repo 9eca1ef (repair of F31): validate_taxonomy_tree
+   raises RuntimeError "tree['hierarchy_mapper'] gives two levels the same name" - before it, TaxonomyTree
+   accepted such a hierarchy_mapper and the later level overwrote the columns of the earlier.  blob_to_df
+   itself still behaves so on a tree object that did not pass the validation
+   (c15_csv_duplicate_readable_level_refuted: a statement about blob_to_df, no longer reachable through
+   TaxonomyTree).
    The numbers of the model are exact fractions: a NaN confidence is outside it.  A probability is a
    ratio of vote counts, never NaN; avg_correlation is NaN only when the expression data hold a NaN
    (the constant-row convention of distance_utils gives 0, not NaN); the real writer prints an empty
@@ -66,8 +70,11 @@ Theorem c15_csv_rows : forall nm hier meta algo conf sticky categ b c,
 Proof. exact csv_rows. Qed.
 Print Assumptions c15_csv_rows.
 
-(* F31 -- the NoDup hypothesis is necessary, and the real code behaves like this: hierarchy [7; 8],
-   hierarchy_mapper {7: 70, 8: 70} (accepted by TaxonomyTree); one cell assigned to node 1 (p = 0.37)
+(* F31 (REPAIRED in /repo 9eca1ef: TaxonomyTree now REFUSES such a hierarchy_mapper - RuntimeError "gives two
+   levels the same name" -, so the input below can no longer reach blob_to_csv through a TaxonomyTree; what
+   remains is a fact about blob_to_df / blob_to_csv given such a tree object, and the reason why the NoDup
+   hypothesis cannot be dropped from c15_csv_rows).  Hierarchy [7; 8],
+   hierarchy_mapper {7: 70, 8: 70}; one cell assigned to node 1 (p = 0.37)
    at level 7 and node 11 (p = 0.25) at level 8.  The CSV has the five columns cell_id, 70_label,
    70_name, 70_bootstrapping_probability, 70_alias (the alias column AFTER the confidence: the keys of a
    Python dict keep the position of their first insertion) and the single row 100, 11, 11, 0.2500, 11:
@@ -176,13 +183,28 @@ From CTM Require Import Model.CsvText Proofs.CsvTextP.
      tokenizer never looks back, so the statement holds wherever the chunk boundaries fall
      (c15_csv_row_text_starts_nonblank);
    - a code point that is not a Unicode scalar value (a surrogate: the writer raises
-     UnicodeEncodeError) or is NUL (the C reader cuts the field: 'a\x00b' reads as 'a').
+     UnicodeEncodeError) or is NUL (the C reader cuts the field: 'a\x00b' reads as 'a');
+   - a text that STARTS with U+FEFF (audit 4, A6: the first field of the first row starts with it and needs
+     no quoting): read_csv strips a leading byte order mark, the table [['\ufeffid','n'],['c','a']] reads
+     as [['id','n'],['c','a']] (c15_example_leading_bom_excluded).  The files blob_to_csv writes start with
+     '#' and are not concerned.
+   LOCALE: "the file" is the UTF-8 encoding of the modelled code points only when the locale's encoding is
+   UTF-8 - blob_to_csv opens the file without an encoding argument; under LC_ALL=C with UTF-8 mode and
+   locale coercion switched off a non-ASCII name makes the writer raise UnicodeEncodeError (header of
+   Model/CsvText.v; assumption of the tie).
    Empty fields, trailing blanks, leading blanks of later fields, commas, quotes, line feeds, '#', every
    other code point are covered. *)
 Theorem c15_csv_text_roundtrip : forall rows,
   well_shaped false rows = true -> csv_parse false (csv_text rows) = Some rows.
 Proof. exact csv_roundtrip. Qed.
 Print Assumptions c15_csv_text_roundtrip.
+
+Example c15_example_leading_bom_excluded :
+  let rows := [[[65279; 105; 100]; [110]]; [[99]; [97]]] in
+  well_shaped false rows = false /\ bom_ok rows = false /\ forallb (row_ok false) rows = true /\
+  csv_parse false (csv_text rows) = Some rows /\
+  well_shaped false [[[65279; 44; 105]; [110]]] = true /\ well_shaped false [[[105]; [65279]]; [[65279]; [97]]] = true.
+Proof. exact leading_bom_excluded. Qed.
 
 (* the text of an admitted row does not start with a blank: the WHITESPACE_LINE state of the tokenizer --
    the only one that looks back into the buffer -- is not entered at the start of a row *)
@@ -304,12 +326,24 @@ Print Assumptions c15_csv_confidence_text_reads_four_decimals.
    JSON assignments through the name tables and the '%.4f' text of the JSON confidence.
    Hypotheses beyond c15_csv_rows: the comment bodies contain no line feed / carriage return (json.dumps
    escapes them in level names; the metadata FILE NAME could hold one) and the table is well_shaped for a
-   reader with comment='#' (computable; c15_example_file). *)
+   reader with comment='#' (computable; c15_example_file).
+   Audit 4, A4.  (i) `names : list (Z * str)` is the table of the STRINGS behind the integer names and is
+   arbitrary: two integers may stand for one string, an integer outside it stands for ''.  The hypotheses
+   are therefore on the strings: the readable level names are pairwise distinct AS STRINGS (what
+   validate_taxonomy_tree enforces; NoDup on the integers allowed 70 -> 'cls', 80 -> 'cls' and a file with
+   the columns cls_label ... twice) and every integer the file shows is defined in `names` (names_defined:
+   with names = [] the former statement certified a file of empty column names; the hypothesis is not used by
+   the proof - it confines the statement to where it means something).  (ii) which levels keep all their
+   columns (sticky) and which confidence columns are categorical (categ, F12) is no longer an argument: the
+   model DERIVES both from the strings by the substring tests of blob_to_csv / blob_to_df
+   (CsvText.sticky_of / categ_of; blob_to_csv_text_auto; tied byte for byte to the real file, tag 1556).
+   The statement for GIVEN lists remains as Proofs/CsvTextP.v csv_text_of_blob. *)
 Theorem c15_csv_text_of_blob_roundtrip :
-  forall names reprs repo version nm hier meta algo conf sticky categ b text,
+  forall names reprs repo version nm hier meta algo conf b text,
   (conf < 2)%nat ->
-  NoDup (map (level_to_name nm) hier) ->
-  blob_to_csv_text names reprs repo version nm hier meta algo conf sticky categ b = Ok text ->
+  NoDup (map (fun l => name_str names (level_to_name nm l)) hier) ->
+  names_defined names (used_names nm hier meta b) = true ->
+  blob_to_csv_text_auto names reprs repo version nm hier meta algo conf b = Ok text ->
   exists cols rows,
     let bodies := csv_comment_bodies names repo version nm hier meta algo in
     let table := map (col_name names conf) cols :: rows in
@@ -327,10 +361,10 @@ Theorem c15_csv_text_of_blob_roundtrip :
         (S j = length hier ->
            tget cols row (KAlias rl) = Some (name_str names (label_to_name nm level (l_assign l) true))) /\
         tget cols row (KField rl conf) =
-          Some (if zmem rl categ
+          Some (if categ_word (name_str names rl)
                 then match rassoc (conf_value conf l) reprs with Some s => s | None => [] end
                 else fmt4_rat_text (conf_value conf l)).
-Proof. exact csv_text_of_blob. Qed.
+Proof. exact csv_text_of_blob_auto. Qed.
 Print Assumptions c15_csv_text_of_blob_roundtrip.
 
 (* non-vacuity: the file of ex_blob.  names: 7 'L7', 8 'L8', 70 'cls', 100 'c0', 101 ' c,1' (leading blank
@@ -356,6 +390,23 @@ Example c15_example_file :
     Some [[32; 99; 44; 49]; [66]; [66]; [45; 48; 46; 50; 53; 48; 48]; [98; 34; 51]; [98; 34; 51];
           [98; 34; 51]; [45; 48; 46; 50; 53; 48; 48]].
 Proof. repeat split; vm_compute; reflexivity. Qed.
+(* the hypotheses of c15_csv_text_of_blob_roundtrip on that blob: the readable level names 'cls', 'L8' are
+   distinct strings, every integer shown is in ex_names, and the derived lists are the ones given above (no
+   level name holds a word).  And where the derivation matters: a level called 'my_label' (code points 109 121 95 108 97 98 101 108) is sticky and
+   categorical, 'subclass' is neither, 'x_bootstrapping_probability' is sticky for conf = 0 only. *)
+Example c15_example_file_hypotheses :
+  NoDup (map (fun l => name_str ex_names (level_to_name ex_nm l)) [7; 8]) /\
+  map (fun l => name_str ex_names (level_to_name ex_nm l)) [7; 8] = [[99; 108; 115]; [76; 56]] /\
+  names_defined ex_names (used_names ex_nm [7; 8] (Some 5) ex_blob) = true /\
+  blob_to_csv_text_auto ex_names [] [114] [49; 46; 51] ex_nm [7; 8] (Some 5) 2 1 ex_blob = Ok ex_file_text /\
+  names_defined [] (used_names ex_nm [7; 8] (Some 5) ex_blob) = false /\
+  (let nms := [(1, [109; 121; 95; 108; 97; 98; 101; 108]); (2, [115; 117; 98; 99; 108; 97; 115; 115]);
+               (3, 120 :: 95 :: CsvText.Lit.bootstrapping_probability)] in
+   sticky_of nms 0 [1; 2; 3] = [1; 3] /\ sticky_of nms 1 [1; 2; 3] = [1] /\ categ_of nms [1; 2; 3] = [1]).
+Proof.
+  split; [|vm_compute; repeat split; reflexivity].
+  vm_compute. repeat constructor; cbn; intuition discriminate.
+Qed.
 (* the comment lines of that file: '# metadata = o.json', '# taxonomy hierarchy = ["L7", "L8"]',
    '# readable taxonomy hierarchy = ["cls", "L8"]', "# algorithm: 'hierarchical'; codebase: r; version: 1.3" *)
 Example c15_example_comment_bodies :
